@@ -47,19 +47,19 @@ theorem wsFail_isWs (m : WsMode) (pos : Nat) (ws : Bytes) : (wsFail m pos ws).ki
 
 /-! ### positions -/
 
-theorem rest_add (f : File) (pos k : Nat) (h : InFile f pos) : rest f (pos + k) = (rest f pos).drop k := by
+theorem rest_add_c10 (f : File) (pos k : Nat) (h : InFile f pos) : rest f (pos + k) = (rest f pos).drop k := by
   obtain ⟨h1, _⟩ := h
   unfold rest
   rw [List.drop_drop]
   congr 1; omega
 
-theorem inFile_add (f : File) (pos k : Nat) (h : InFile f pos) (hk : k ≤ (rest f pos).length) : InFile f (pos + k) := by
+theorem inFile_add_c10 (f : File) (pos k : Nat) (h : InFile f pos) (hk : k ≤ (rest f pos).length) : InFile f (pos + k) := by
   have := rest_length f pos h
   obtain ⟨h1, h2⟩ := h
   constructor <;> omega
 
 theorem inFile_ws (f : File) (pos : Nat) (h : InFile f pos) : InFile f (pos + wsRun (rest f pos)) :=
-  inFile_add f pos _ h (wsRun_le _)
+  inFile_add_c10 f pos _ h (wsRun_le _)
 
 /-! ### terminals return TerminalNodes that start where they were asked to parse -/
 
@@ -109,7 +109,7 @@ theorem setError_back (st : St) (ce : Err) (pos : Nat) (hce : st.ctxErr = some c
 
 /-- what LeftTrim returns, given the position after the run, the pending whitespace error, and the
     operand's outcome (the `if err != nil { … }` cascade of trim.go) -/
-def ltrimOut (pos pos' : Nat) (wsErr : Option Err) (o : Out) : Out :=
+def ltrimOut_c10 (pos pos' : Nat) (wsErr : Option Err) (o : Out) : Out :=
   match o.err with
   | some e =>
     match wsErr with
@@ -123,13 +123,13 @@ def ltrimOut (pos pos' : Nat) (wsErr : Option Err) (o : Out) : Out :=
     | some w => ⟨.nil, [], some w⟩
     | none => ⟨o.res, o.cp, none⟩
 
-theorem run_ltrim (cfg : Cfg) (fuel : Nat) (g : G) (m : WsMode) (ctx : Ctx) (pos : Nat) (st : St)
+theorem run_ltrim_c10 (cfg : Cfg) (fuel : Nat) (g : G) (m : WsMode) (ctx : Ctx) (pos : Nat) (st : St)
     (hb : Budget cfg st) (hin : InFile cfg.file pos) (hoff : 1 ≤ cfg.file.offset) :
     run cfg (fuel + 1) (.ltrim g m) ctx pos st =
       match run cfg fuel g ctx (pos + wsRun (rest cfg.file pos)) st with
       | none => none
       | some (o, st') =>
-        some (ltrimOut pos (pos + wsRun (rest cfg.file pos))
+        some (ltrimOut_c10 pos (pos + wsRun (rest cfg.file pos))
           (if wsOk m (rest cfg.file pos) then none else some (wsFail m pos (rest cfg.file pos))) o, st') := by
   rw [run]
   rw [if_neg (budget_guard hb)]
@@ -152,7 +152,7 @@ theorem run_ltrim (cfg : Cfg) (fuel : Nat) (g : G) (m : WsMode) (ctx : Ctx) (pos
           simp only [Bool.and_eq_true, decide_eq_true_eq] at hc
           exact setError_back st' ce pos hce (by omega)
         · rfl
-    unfold ltrimOut
+    unfold ltrimOut_c10
     cases o.err <;> cases (if wsOk m (rest cfg.file pos) then none else some (wsFail m pos (rest cfg.file pos))) <;> simp only
     · exact congrArg (fun s => some (_, s)) hfix
     · exact congrArg (fun s => some (_, s)) hfix
@@ -171,8 +171,8 @@ theorem run_ltrim_res (cfg : Cfg) (fuel : Nat) (g : G) (m : WsMode) (ctx : Ctx) 
     run cfg (fuel + 1) (.ltrim g m) ctx pos st =
       some (if wsOk m (rest cfg.file pos) then ⟨res, cp, none⟩
             else ⟨.nil, [], some (wsFail m pos (rest cfg.file pos))⟩, st') := by
-  rw [run_ltrim cfg fuel g m ctx pos st hb hin hoff, hr]
-  simp only [ltrimOut]
+  rw [run_ltrim_c10 cfg fuel g m ctx pos st hb hin hoff, hr]
+  simp only [ltrimOut_c10]
   by_cases h : wsOk m (rest cfg.file pos)
   · simp only [if_pos h]
   · simp only [if_neg h]
@@ -187,8 +187,8 @@ theorem run_ltrim_err (cfg : Cfg) (fuel : Nat) (g : G) (m : WsMode) (ctx : Ctx) 
             else if e.pos > pos + wsRun (rest cfg.file pos) then ⟨.nil, [], some (wsFail m pos (rest cfg.file pos))⟩
             else if e.kind.isNotFound then ⟨res, cp, some ⟨pos, e.kind⟩⟩
             else ⟨res, cp, some e⟩, st') := by
-  rw [run_ltrim cfg fuel g m ctx pos st hb hin hoff, hr]
-  simp only [ltrimOut]
+  rw [run_ltrim_c10 cfg fuel g m ctx pos st hb hin hoff, hr]
+  simp only [ltrimOut_c10]
   by_cases h : wsOk m (rest cfg.file pos)
   · simp only [if_pos h]
   · simp only [if_neg h]
@@ -353,12 +353,12 @@ theorem run_deco (cfg : Cfg) (d : Deco) (ch : Nat) (name pend gap tail : Bytes) 
   have hlen : (rest cfg.file pos).length = pend.length + 1 + gap.length + tail.length := by
     rw [hrest]; simp; omega
   -- the token's own position
-  have hinP : InFile cfg.file (pos + pend.length) := inFile_add _ _ _ hin (by omega)
+  have hinP : InFile cfg.file (pos + pend.length) := inFile_add_c10 _ _ _ hin (by omega)
   have hrestP : rest cfg.file (pos + pend.length) = ch :: (gap ++ tail) := by
-    rw [rest_add _ _ _ hin, hrest]; simp
-  have hinR : InFile cfg.file (pos + pend.length + 1) := inFile_add _ _ _ hinP (by rw [hrestP]; simp)
+    rw [rest_add_c10 _ _ _ hin, hrest]; simp
+  have hinR : InFile cfg.file (pos + pend.length + 1) := inFile_add_c10 _ _ _ hinP (by rw [hrestP]; simp)
   have hrestR : rest cfg.file (pos + pend.length + 1) = gap ++ tail := by
-    rw [rest_add _ _ _ hinP, hrestP]; simp
+    rw [rest_add_c10 _ _ _ hinP, hrestP]; simp
   have hkR : wsRun (rest cfg.file (pos + pend.length + 1)) = gap.length := by
     rw [hrestR]; exact wsRun_append gap _ hg htail
   have hokL : ∀ m, wsOk m (rest cfg.file pos) ↔ wsOk m pend := by
@@ -484,11 +484,11 @@ theorem seqParse_toks (cfg : Cfg) (hmc : cfg.maxCalls = 0) (hoff : 1 ≤ cfg.fil
       rw [hdr] at hr
       simp only [tokNodes, endPos, hdr]
       have hinN : InFile cfg.file (pos + pend.length + 1 + t.gap.length) := by
-        have := inFile_add _ _ (pend.length + 1 + t.gap.length) hin (by omega)
+        have := inFile_add_c10 _ _ (pend.length + 1 + t.gap.length) hin (by omega)
         rw [show pos + pend.length + 1 + t.gap.length = pos + (pend.length + 1 + t.gap.length) by omega]; exact this
       have hrestN : rest cfg.file (pos + pend.length + 1 + t.gap.length) = weave [] r := by
         rw [show pos + pend.length + 1 + t.gap.length = pos + (pend.length + 1 + t.gap.length) by omega,
-          rest_add _ _ _ hin, hrest', weave_eq, drop_tok_gap]
+          rest_add_c10 _ _ _ hin, hrest', weave_eq, drop_tok_gap]
         rfl
       obtain ⟨b, hb'⟩ := ih (depth + 1)
         (nodes ++ [.term (Utf8.encodeRune t.ch) (.rune t.ch) (pos + pend.length) (pos + pend.length + 1 + t.gap.length)]) []
@@ -507,11 +507,11 @@ theorem seqParse_toks (cfg : Cfg) (hmc : cfg.maxCalls = 0) (hoff : 1 ≤ cfg.fil
       rw [hdr] at hr
       simp only [tokNodes, endPos, hdr, Nat.add_zero]
       have hinN : InFile cfg.file (pos + pend.length + 1) := by
-        have := inFile_add _ _ (pend.length + 1) hin (by omega)
+        have := inFile_add_c10 _ _ (pend.length + 1) hin (by omega)
         rw [show pos + pend.length + 1 = pos + (pend.length + 1) by omega]; exact this
       have hrestN : rest cfg.file (pos + pend.length + 1) = weave t.gap r := by
         rw [show pos + pend.length + 1 = pos + (pend.length + 1) by omega,
-          rest_add _ _ _ hin, hrest', weave_eq, drop_tok]
+          rest_add_c10 _ _ _ hin, hrest', weave_eq, drop_tok]
       obtain ⟨b, hb'⟩ := ih (depth + 1)
         (nodes ++ [.term (Utf8.encodeRune t.ch) (.rune t.ch) (pos + pend.length) (pos + pend.length + 1)]) t.gap
         (if pos + pend.length + 1 > pos then [] else ctx) (pos + pend.length + 1)
